@@ -691,6 +691,30 @@ pub fn run_c16(_args: &Args, tier: &str, seed: u64) -> Report {
             }
         };
     }
+    // recognition side: a registered value the enum cannot decode. The values the pinned library does not know (none of the
+    // RFC 8011 ones; for finishings those listed in FINISHINGS_NOT_IN_PINNED_TREE) are unjudged, every other registered value
+    // must be recognised (a table that loses entries no longer recognises the assigned codes)
+    macro_rules! recognised_check {
+        ($ty:ty, $table:expr, $name:expr, $allow_missing:expr) => {
+            for e in $table.iter() {
+                rep.eval();
+                let x = e.0 as i32;
+                if <$ty>::from_i32(x).is_none() {
+                    if $allow_missing.contains(&x) {
+                        rep.count("registered_values_unknown_to_the_pinned_library_unjudged", 1);
+                    } else {
+                        rep.violation(format!("C16:{}:missing:{x}", $name), format!("{} value {x} ({}) is registered but not recognised", $name, e.1), none());
+                    }
+                }
+            }
+        };
+    }
+    const NONE_MISSING: [i32; 0] = [];
+    recognised_check!(PrinterState, reg::PRINTER_STATE, "printer-state", NONE_MISSING);
+    recognised_check!(JobState, reg::JOB_STATE, "job-state", NONE_MISSING);
+    recognised_check!(Orientation, reg::ORIENTATION, "orientation-requested", ORIENTATION_NOT_IN_PINNED_TREE);
+    recognised_check!(PrintQuality, reg::PRINT_QUALITY, "print-quality", NONE_MISSING);
+    recognised_check!(Finishings, reg::FINISHINGS, "finishings", FINISHINGS_NOT_IN_PINNED_TREE);
     enum_check!(PrinterState, reg::PRINTER_STATE, "printer-state");
     enum_check!(JobState, reg::JOB_STATE, "job-state");
     enum_check!(Orientation, reg::ORIENTATION, "orientation-requested");
@@ -706,6 +730,10 @@ pub fn run_c16(_args: &Args, tier: &str, seed: u64) -> Report {
     rep.rule = "Complete enumeration against registry tables embedded in the harness (RFC 8010 3.5, RFC 8011 5/App. B, PWG 5100.1, CUPS): all 65536 16-bit values through StatusCode::from_u16, IppHeader::status_code, is_success and Operation::from_u16; all 256 bytes through DelimiterTag / ValueTag; -4..=65535 (+extremes) through the five attribute enums; the tag emitted for each of the 21 non-set kinds and for every value decoded from each of the 256 tag bytes over 74 bodies (fill patterns, text with spaces / slashes / commas / non-ASCII / control characters); every recognised variant cast back to its integer. Rules: registered code -> the variant the registry names for it (name comparison modulo case/punctuation); other codes -> unknown or a symbol that names no registered code; success <=> code in {0,1,2}; from(x) as int == x. distinct_nontrivial = registered status codes checked.".into();
     rep
 }
+
+/// registered values the pinned library's enums do not contain (measured on the pinned tree; unjudged)
+const FINISHINGS_NOT_IN_PINNED_TREE: [i32; 15] = [10, 11, 12, 13, 14, 15, 16, 50, 51, 52, 53, 60, 61, 62, 63];
+const ORIENTATION_NOT_IN_PINNED_TREE: [i32; 0] = [];
 
 // =================================================================== C17
 
